@@ -61,6 +61,12 @@ class World(object):
         class S2(S1):
             __slots__ = ("d_",)
 
+        class S3(S1):
+            __slots__ = ()              # a slotted level that declares no field of its own
+
+        class S4(S3):
+            __slots__ = ("z",)          # ... and one below such a level
+
         class M1(S0):
             pass
 
@@ -76,6 +82,8 @@ class World(object):
         self._reg("S0", S0, fields=["a", "_b"])
         self._reg("S1", S1, fields=["a", "_b", "c"])
         self._reg("S2", S2, fields=["a", "_b", "c", "d_"])
+        self._reg("S3", S3, fields=["a", "_b", "c"])
+        self._reg("S4", S4, fields=["a", "_b", "c", "z"])
         self._reg("M1", M1, fields=["a", "_b", "e"])
         self._reg("L0", L0, local=True, fields=["a", "b"])
         self._reg("LS0", LS0, local=True, fields=["p", "q"])
@@ -106,7 +114,7 @@ class World(object):
         self._reg("Color", Color, kind="enum", members={m.name: enc(m.value) for m in Color})
         self.CT["Decimal"] = {"qual": "decimal.Decimal", "kind": "decimal", "ctor": [], "ignore": [], "local": False, "members": {"-": enc(None)}}
         self.cls["Decimal"] = decimal.Decimal
-        self.plain_keys = ["D0", "D1", "D2", "D3", "S0", "S1", "S2", "M1", "L0", "LS0", "I0", "IS0"]
+        self.plain_keys = ["D0", "D1", "D2", "D3", "S0", "S1", "S2", "S3", "S4", "M1", "L0", "LS0", "I0", "IS0"]
 
     # ---- objects
     def make(self, key, values):
